@@ -272,8 +272,10 @@ func (cf *CloudflarePublisher) getZoneData(ctx context.Context, zone string, dat
 		}
 		if len(result.Result) > 0 {
 			zoneID = result.Result[0].ID
+			// Only a zone that was found is remembered: one that is not
+			// there now may be there at the next call.
+			cf.zoneIDs[zone] = zoneID
 		}
-		cf.zoneIDs[zone] = zoneID
 	}
 	if zoneID == "" {
 		return errNotFound
